@@ -18,7 +18,7 @@ keyed narrowly.  Closed-form expectations on top of that:
 namespace C20
 open Model Proto
 
-def kinds : List String := ["ball", "cub", "cap", "seg", "tri", "hs", "hull", "cyl", "cone", "rcub"]
+def kinds : List String := ["ball", "cub", "cap", "seg", "tri", "hs", "hull", "cyl", "cone", "rcub", "tm", "pl", "comp"]
 
 def isHex16 (t : String) : Bool :=
   t.length == 16 && t.all (fun c => c.isDigit || ('a' ≤ c && c ≤ 'f'))
